@@ -1,6 +1,7 @@
-from . import dchecks, rchecks
+from . import dchecks, rchecks, ochecks
 
 CHECKS = {}
 REPLAYERS = {}
 CHECKS.update(dchecks.CHECKS)
 CHECKS.update(rchecks.CHECKS)
+CHECKS.update(ochecks.CHECKS)
